@@ -7,7 +7,7 @@ VERIF = os.path.dirname(os.path.dirname(os.path.abspath(__file__)))
 
 
 def round_of(name):
-    return 2 if name.startswith("S2-") else (3 if name.startswith("S3-") else (4 if name.startswith("S4-") else (5 if name.startswith("S5-") else (6 if name.startswith("S6-") else 1))))
+    return 2 if name.startswith("S2-") else (3 if name.startswith("S3-") else (4 if name.startswith("S4-") else (5 if name.startswith("S5-") else (6 if name.startswith("S6-") else (7 if name.startswith("S7-") else 1)))))
 
 
 def first_key(sc):
@@ -22,7 +22,7 @@ def short(v):
 
 
 def main():
-    rows = {1: [], 2: [], 3: [], 4: [], 5: [], 6: []}
+    rows = {1: [], 2: [], 3: [], 4: [], 5: [], 6: [], 7: []}
     root = os.path.join(VERIF, "seeded")
     for n in sorted(os.listdir(root)):
         mp = os.path.join(root, n, "meta.json")
@@ -39,7 +39,7 @@ def main():
         now = sc.get("verdict", "")
         by = ("by " + ", ".join(det)) if det else (("exit 2: " + ", ".join(unk)) if unk else "")
         rows[round_of(n)].append((n, note, short(first) if fk else "(as now)", short(now), by))
-    for r in (1, 2, 3, 4, 5, 6):
+    for r in (1, 2, 3, 4, 5, 6, 7):
         rs = rows[r]
         if not rs:
             continue
